@@ -94,6 +94,7 @@ def setLinkField (l : L) (k v : String) : Option L :=
   | "ld" => (parseBool v).map fun b => { l with lossDegraded := b }
   | "cct" => v.toNat?.map fun x => { l with ccTarget := x }
   | "w" => v.toInt?.map fun x => { l with core := { l.core with window := x } }
+  | "br" => v.toNat?.map fun x => { l with bitrate := { l.bitrate with current := Float.ofBits (UInt64.ofNat x) } }
   | _ => none
 
 def setLinkFields (l : L) : List String → Option L
